@@ -355,7 +355,7 @@ func (fc *FuncCtx) execIndexAddr(fr *Frame, st *State, x *ssa.IndexAddr) Value {
 	case *types.Slice:
 		sv := fc.sliceOf(fr, st, x.X)
 		fc.oblige(fr, st, "safety.index", "", tAnd(fc.ile(z, i), fc.ilt(i, sv.Len)), x.Pos(), "index within slice bounds")
-		return fc.elemPlace(sv.Base, fc.u.define("ix", fc.intSort(), fc.iadd(sv.Off, i)), u.Elem())
+		return fc.elemPlace(sv.Base, fc.u.define("ix", fc.intSort(), fc.elemIdx(sv.Off, i)), u.Elem())
 	case *types.Pointer:
 		at, ok := u.Elem().Underlying().(*types.Array)
 		if !ok {
